@@ -36,6 +36,10 @@ func init() {
 				if f == nil {
 					continue
 				}
+				if p.Field("query", strings.TrimSuffix(strings.TrimPrefix(sp.fn, "query."), ".invert"), sp.constant) == nil {
+					p.anchorFail("constant term %s of %s", sp.constant, sp.fn)
+					continue
+				}
 				info := f.Pkg.TypesInfo
 				var recvO types.Object
 				if f.Decl.Recv != nil && len(f.Decl.Recv.List[0].Names) == 1 {
@@ -47,6 +51,27 @@ func init() {
 						if ri := rootIdentOf(rs.X); ri != nil && info.Uses[ri] == recvO {
 							if v := identObj(info, rs.Value); v != nil {
 								rangeVars[v] = true
+							}
+						}
+					}
+					return true
+				})
+				// an element of a receiver list taken by index (s := &c.Summands[i]) is a source as well
+				inspectShallow(f.Body(), func(x ast.Node) bool {
+					as, ok := x.(*ast.AssignStmt)
+					if !ok || as.Tok != token.DEFINE || len(as.Lhs) != len(as.Rhs) {
+						return true
+					}
+					for i, rh := range as.Rhs {
+						rh = ast.Unparen(rh)
+						if u, ok := rh.(*ast.UnaryExpr); ok && u.Op == token.AND {
+							rh = ast.Unparen(u.X)
+						}
+						if ix, ok := rh.(*ast.IndexExpr); ok {
+							if ri := rootIdentOf(ix.X); ri != nil && recvO != nil && info.Uses[ri] == recvO {
+								if v := identObj(info, as.Lhs[i]); v != nil {
+									rangeVars[v] = true
+								}
 							}
 						}
 					}
